@@ -238,6 +238,8 @@ def run_case(case):
                         oracle_reload(hr, stats)
                         if nreloc:
                             oracle_moved(hr, stats)
+                        for orig in getattr(hr, "originals", ()):
+                            oracle_original(hr, orig, stats)
             except Violation as v:
                 out.update(ok=False, vclass=v.vclass, detail=v.detail,
                            key=dict(v.key, engine="E-sess", fmt=st["fmt"]))
@@ -268,6 +270,15 @@ def relocate(hr, op, scratch, n, probes):
     new_root = os.path.join(new_parent, op["name"])
     os.makedirs(os.path.dirname(new_root), exist_ok=True)
     if op["how"] == "copy":
+        # the original stays where it is: whatever is done to the copy from
+        # now on, opening the original reconstructs what ITS files say
+        import copy as _copy
+        if not hasattr(hr, "originals"):
+            hr.originals = []
+        hr.originals.append({
+            "root": hr.root,
+            "snapshot": _copy.deepcopy(hr.sio.Dataset(hr.root)._dataset_info),  # pylint: disable=protected-access
+            "digest": esess.tree_digest(hr.root)})
         shutil.copytree(hr.root, new_root)
     else:
         shutil.move(hr.root, new_root)
@@ -304,6 +315,27 @@ def relocate(hr, op, scratch, n, probes):
         raise Violation("C20", "relocated_dataset_does_not_open",
                         f"{op}: {type(e).__name__}: {str(e)[:200]}",
                         key={"access": access}) from e
+
+
+def oracle_original(hr, orig, stats):
+    if not os.path.isdir(orig["root"]) or esess.tree_digest(
+            orig["root"]) != orig["digest"]:
+        return  # (moved away or legitimately written to later)
+    try:
+        fresh = hr.sio.Dataset(orig["root"])
+        same = fresh._dataset_info == orig["snapshot"]  # pylint: disable=protected-access
+        fresh.check(show_progressbar=False)
+    except Exception as e:  # pylint: disable=broad-except
+        raise Violation(
+            "C20", "original_of_a_copy_no_longer_opens_or_verifies",
+            f"its files are unchanged: {type(e).__name__}: {str(e)[:200]}",
+            key={"what": "original"}) from e
+    if not same:
+        raise Violation(
+            "C20", "reloaded_description_differs",
+            "a fresh open of the untouched original of a copy reports another "
+            "description than its files hold", key={"fields": "original"})
+    stats["originals_of_copies_checked"] += 1
 
 
 def oracle_reload(hr, stats):
